@@ -72,10 +72,13 @@ def ref_sort(x, axis, depth, argsort, ascending):
         # items: [(pos, src_container, dst_container, idx)]; value = src_container[idx], of depth d
         if d == 0:
             vals = [(src[idx], pos) for pos, src, dst, idx in items]
-            order = sorted(range(len(vals)), key=lambda q: vals[q][0] if ascending else -vals[q][0])
+            # None items go last in either direction
+            order = sorted(range(len(vals)), key=lambda q: (vals[q][0] is None, 0 if vals[q][0] is None else
+                                                            (vals[q][0] if ascending else -vals[q][0])))
             for slot, q in zip(items, order):
                 slot[2][slot[3]] = vals[q][1] if argsort else vals[q][0]
             return
+        items = [it for it in items if it[1][it[3]] is not None]          # a None list takes no part
         n = max([len(src[idx]) for _, src, dst, idx in items], default=0)
         for j in range(n):
             comb([(pos, src[idx], dst[idx], j) for pos, src, dst, idx in items if len(src[idx]) > j], d - 1)
@@ -85,7 +88,8 @@ def ref_sort(x, axis, depth, argsort, ascending):
             comb([(i, src, dst, i) for i in range(len(src))], d - 1)
         else:
             for s, t in zip(src, dst):
-                walk(s, t, a - 1, d - 1)
+                if s is not None:
+                    walk(s, t, a - 1, d - 1)
     walk(x, out, axis, depth)
     return out
 
@@ -130,7 +134,7 @@ def main():
                         cats[c] = cats.get(c, 0) + 1
                         if cats[c] <= SHOW:
                             print("REDUCE MISMATCH", name, "axis", axis, "mask", mask, "\n  x   ", x, "\n  want", want, "\n  got ", got)
-            for argsort in (() if NONE else (False, True)):
+            for argsort in ((False,) if NONE else (False, True)):
                 for asc in (True, False):
                     want = ref_sort(x, axis, depth, argsort, asc)
                     try:
